@@ -526,57 +526,92 @@ Definition read_pdu (max : N) (strict : bool) (b : bytes) : outcome (option (pdu
   end.
 
 (** * Well-formed PDUs: the hypotheses of the round trip.
-    [fits_*]: every content fits its length field (what the writer checks);
-    [latin_*]: the strings are encodable;
-    the rest is what the reader normalises: AE titles are cut/padded to 16 bytes and
-    trimmed, UID-like strings are trimmed (Unicode White_Space at both ends), sub-item
-    types the reader interprets cannot be carried by [Unknown], reserved codes are
-    those the reader maps back to [Reserved]. *)
+    [latin_*]: every string is encodable (ISO-8859-1);
+    [fits_*]: every content fits its length field (what the writer checks since 27e8911);
+    [norm_*]: what the reader normalises: AE titles are cut/padded to 16 bytes and
+    trimmed, UID-like strings are trimmed (Unicode White_Space at both ends), type
+    codes the reader interprets cannot be carried by [Unknown], reserved codes are
+    those the reader maps back to [Reserved], numbers are within their field. *)
 Definition fits16 (b : bytes) : bool := len b <=? 65535.
 Definition fits32 (b : bytes) : bool := len b <=? 4294967295.
 Definition trimmed (s : str) : bool := negb (starts_ws s) && negb (ends_ws s).
-Definition uid_ok (s : str) : bool := latin1 s && trimmed s.
-Definition ae_ok (s : str) : bool := latin1 s && trimmed s && (len s <=? 16).
 
-Definition wf_pc_proposed (p : pc_proposed) : bool :=
-  uid_ok (pp_abstract p) && forallb uid_ok (pp_ts p) && fits16 (c_pc_proposed p).
-Definition wf_pc_result (p : pc_result) : bool :=
-  uid_ok (pr_ts p) && fits16 (c_pc_result p).
+Definition latin_pc_proposed (p : pc_proposed) : bool := latin1 (pp_abstract p) && forallb latin1 (pp_ts p).
+Definition fits_pc_proposed (p : pc_proposed) : bool :=
+  fits16 (pp_abstract p) && forallb fits16 (pp_ts p) && fits16 (c_pc_proposed p).
+Definition norm_pc_proposed (p : pc_proposed) : bool := trimmed (pp_abstract p) && forallb trimmed (pp_ts p).
+Definition latin_pc_result (p : pc_result) : bool := latin1 (pr_ts p).
+Definition fits_pc_result (p : pc_result) : bool := fits16 (pr_ts p) && fits16 (c_pc_result p).
+Definition norm_pc_result (p : pc_result) : bool := trimmed (pr_ts p).
+
 Definition known_user_type (t : N) : bool :=
   (t =? 81) || (t =? 82) || (t =? 84) || (t =? 85) || (t =? 86) || (t =? 88).
-Definition wf_user_var (v : user_var) : bool :=
-  fits16 (c_user_var v) &&
+Definition latin_user_var (v : user_var) : bool :=
+  match v with
+  | UvImplClassUid s | UvImplVersion s => latin1 s
+  | UvRole uid _ _ | UvSopExt uid _ => latin1 uid
+  | _ => true
+  end.
+Definition fits_user_var (v : user_var) : bool :=
+  match v with
+  | UvRole uid _ _ | UvSopExt uid _ => fits16 uid
+  | UvIdentity _ _ prim sec => fits16 prim && fits16 sec
+  | _ => true
+  end && fits16 (c_user_var v).
+Definition norm_user_var (v : user_var) : bool :=
   match v with
   | UvMaxLength n => n <? 4294967296
-  | UvImplClassUid s | UvImplVersion s => uid_ok s
-  | UvRole uid _ _ | UvSopExt uid _ => uid_ok uid
+  | UvImplClassUid s | UvImplVersion s => trimmed s
+  | UvRole uid _ _ | UvSopExt uid _ => trimmed uid
   | UvIdentity _ _ _ _ => true
   | UvUnknown t _ => negb (known_user_type t)
   end.
-Definition wf_user_vars (uvs : list user_var) : bool :=
-  forallb wf_user_var uvs && fits16 (concat (map e_user_var uvs)).
-Definition wf_rj_source (s : rj_source) : bool :=
+Definition fits_user_vars (uvs : list user_var) : bool :=
+  forallb fits_user_var uvs && fits16 (concat (map e_user_var uvs)).
+Definition fits_pdv (v : pdv) : bool := 2 + len (pdv_data v) <=? 4294967295.
+Definition norm_rj_source (s : rj_source) : bool :=
   match s with
   | RjServiceUser (SuReserved x) => (x =? 4) || (x =? 5) || (x =? 6) || (x =? 8) || (x =? 9) || (x =? 10)
   | RjProviderPres (PresReserved x) => (x =? 0) || (x =? 3) || (x =? 4) || (x =? 5) || (x =? 6) || (x =? 7)
   | _ => true
   end.
-Definition wf_pdv (v : pdv) : bool := 2 + len (pdv_data v) <=? 4294967295.
 Definition known_pdu_type (t : N) : bool := (1 <=? t) && (t <=? 7).
+Definition norm_ae (s : str) : bool := trimmed s && (len s <=? 16).
 
-Definition wf_pdu (p : pdu) : bool :=
-  fits32 (e_body p) &&
+Definition latin_pdu (p : pdu) : bool :=
   match p with
-  | AssocRQ ver calling called app pcs uvs =>
-      (ver <? 65536) && ae_ok calling && ae_ok called && latin1 app && fits16 app
-      && forallb wf_pc_proposed pcs && wf_user_vars uvs
-  | AssocAC ver calling called app pcs uvs =>
-      (ver <? 65536) && ae_ok calling && ae_ok called && latin1 app && fits16 app
-      && forallb wf_pc_result pcs && wf_user_vars uvs
-  | AssocRJ _ s => wf_rj_source s
-  | PData vs => forallb wf_pdv vs
-  | ReleaseRQ | ReleaseRP | AbortRQ _ => true
+  | AssocRQ _ calling called app pcs uvs =>
+      latin1 called && latin1 calling && latin1 app && forallb latin_pc_proposed pcs && forallb latin_user_var uvs
+  | AssocAC _ calling called app pcs uvs =>
+      latin1 called && latin1 calling && latin1 app && forallb latin_pc_result pcs && forallb latin_user_var uvs
+  | _ => true
+  end.
+Definition fits_pdu (p : pdu) : bool :=
+  match p with
+  | AssocRQ _ _ _ app pcs uvs => fits16 app && forallb fits_pc_proposed pcs && fits_user_vars uvs
+  | AssocAC _ _ _ app pcs uvs => fits16 app && forallb fits_pc_result pcs && fits_user_vars uvs
+  | PData vs => forallb fits_pdv vs
+  | _ => true
+  end && fits32 (e_body p).
+Definition norm_pdu (p : pdu) : bool :=
+  match p with
+  | AssocRQ ver calling called _ pcs uvs =>
+      (ver <? 65536) && norm_ae calling && norm_ae called && forallb norm_pc_proposed pcs && forallb norm_user_var uvs
+  | AssocAC ver calling called _ pcs uvs =>
+      (ver <? 65536) && norm_ae calling && norm_ae called && forallb norm_pc_result pcs && forallb norm_user_var uvs
+  | AssocRJ _ s => norm_rj_source s
   | Unknown t _ => negb (known_pdu_type t)
+  | _ => true
+  end.
+Definition wf_pdu (p : pdu) : bool := latin_pdu p && fits_pdu p && norm_pdu p.
+
+(* no [Unknown] value carries a type code that the reader (and PS3.8) interprets *)
+Definition no_alias (p : pdu) : bool :=
+  let uv_ok v := match v with UvUnknown t _ => negb (known_user_type t) | _ => true end in
+  match p with
+  | Unknown t _ => negb (known_pdu_type t)
+  | AssocRQ _ _ _ _ _ uvs | AssocAC _ _ _ _ _ uvs => forallb uv_ok uvs
+  | _ => true
   end.
 
 (** * Correspondence with the implementation *)
